@@ -122,6 +122,16 @@ def generate(tier, rng):
                      'seed': seed, 'src': 'fd', 'fd': impl})
   for c in edge:
     yield c
+  # global JAX configuration: the keys are drawn by JAX; as split paths they must not depend on the flags
+  settings = [{'JAX_DEFAULT_PRNG_IMPL': 'rbg'}]
+  if tier != 'quick':
+    settings += [{'JAX_THREEFRY_PARTITIONABLE': '0'}, {'JAX_THREEFRY_PARTITIONABLE': '1'}, {'JAX_ENABLE_X64': '1'},
+                 {'JAX_DISABLE_JIT': '1'}, {'JAX_DEFAULT_PRNG_IMPL': 'unsafe_rbg'}]
+  for j, env in enumerate(settings):
+    yield {'kind': 'flags', 'env': env, 'cases': [
+        {'kind': 'get', 'ids': _ids(4, j % 3), 'n': 2, 'seed': 0, 'start': 0, 'ops': [['S'], ['S'], ['R', 0], ['S']], 'fd': 'mem'},
+        {'kind': 'get', 'ids': _ids(5, (j + 1) % 3), 'n': 5, 'seed': rng.randrange(2 ** 32), 'start': 3,
+         'ops': [['S'], ['R', 1000], ['S'], ['R', 3], ['S']], 'fd': 'subset', 'form': 3}]}
   for i in range(nstream):
     nc = rng.choice([1, 2, 3, 5, 7])
     yield {'kind': 'stream', 'ids': _ids(nc, i % 3), 'n': rng.randrange(1, nc + 2), 'start': rng.choice([0, 1, 2, 3, 7]),
@@ -211,7 +221,34 @@ def _perturb(k):
   np.random.rand(3 + k)
 
 
+def _run_flags(case):
+  """The embedded get-cases in a subprocess started with other global JAX flags, and here."""
+  import json
+  import os
+  import subprocess
+  import sys
+  env = dict(os.environ)
+  env.update(case['env'])
+  p = subprocess.run([sys.executable, '-m', 'harness.c13'], input=json.dumps(case['cases']), capture_output=True,
+                     text=True, env=env, timeout=170)
+  if p.returncode != 0:
+    return {'outs': [], 'sub_error': (p.stderr or '')[-400:], 'subs': [], 'here': [], 'key_table_injective': True}
+  subs = json.loads(p.stdout.strip().split('\n')[-1])
+  here = [run(c) for c in case['cases']]
+  return {'outs': [o for so in subs for o in so['outs']], 'sub_error': None, 'subs': subs, 'here': here,
+          'key_table_injective': all(so['key_table_injective'] for so in subs)}
+
+
+def _sub_main():
+  import json
+  import sys
+  cases = json.loads(sys.stdin.read())
+  print(json.dumps([run(c) for c in cases]))
+
+
 def run(case):
+  if case['kind'] == 'flags':
+    return _run_flags(case)
   if case['kind'] == 'prs':
     return _run(case, None, [], [])
   fd, ids, fd_ids, cleanup = _fd(case)
@@ -399,6 +436,18 @@ def _keys_across(outs, rounds, tag):
 
 
 def oracle(case, obs):
+  if case['kind'] == 'flags':
+    if obs['sub_error'] is not None:
+      return [('flags-subprocess', f'sampling under {case["env"]} failed: {obs["sub_error"][-200:]}')]
+    v = []
+    for c, so, ho in zip(case['cases'], obs['subs'], obs['here']):
+      v += [(k, f'under {case["env"]}: {m}') for k, m in oracle(c, so)]
+      strip = lambda outs: [[cl[:2] for cl in o] if isinstance(o, list) else o for o in outs]
+      if strip(so['outs']) != strip(ho['outs']):
+        v.append(('flags-change-cohort', f'client ids / datasets depend on the JAX flags {case["env"]}'))
+      if so['key_paths'] != ho['key_paths']:
+        v.append(('flags-change-key-paths', f'the split paths of the keys depend on the JAX flags {case["env"]}'))
+    return v
   if case['kind'] == 'prs':
     v = []
     if obs['rs_seed'] < 0 or obs['draws'] != obs['ref_draws']:
@@ -464,6 +513,8 @@ def _pair(p):
 
 
 def encode(case, obs):
+  if case['kind'] == 'flags':
+    return None        # the embedded cases are encoded where they run with default flags; here: oracle only
   if case['kind'] == 'prs':
     return f'(CPrs {case["seed"]}%Z {obs["start_val"]}%Z {case["r"]}%Z, OPrs {fw.zlit(obs["rs_seed"])}%Z)'
   ids = sorted(tuple(i) for i in case['ids'])
@@ -495,10 +546,14 @@ def encode(case, obs):
 # --------------------------------------------------------------------------
 
 def nontrivial(case, obs):
+  if case['kind'] == 'flags':
+    return bool(obs['subs'])
   return any(isinstance(o, list) and o for o in obs['outs'])
 
 
 def describe(case, obs):
+  if case['kind'] == 'flags':
+    return {'kind': 'flags', 'flags': ','.join(f'{k}={v}' for k, v in sorted(case['env'].items()))}
   if case['kind'] == 'prs':
     return {'kind': 'prs', 'round': 'zero' if case['r'] == 0 else 'small' if case['r'] < 100 else 'big'}
   d = {'kind': case['kind'], 'fd': case.get('fd', 'mem'), 'idtype': case.get('idtype', 'bytes'), 'clients': len(case['ids']), 'cohort': 'all' if case['n'] >= len(case['ids']) else 'one' if case['n'] == 1 else 'some',
@@ -518,6 +573,11 @@ def describe(case, obs):
 
 
 def shrink(case):
+  if case['kind'] == 'flags':
+    for j in range(len(case['cases'])):
+      if len(case['cases']) > 1:
+        yield {**case, 'cases': case['cases'][:j] + case['cases'][j + 1:]}
+    return
   if case['kind'] == 'prs':
     for k in ('seed', 'r'):
       for c in sorted({0, case[k] // 2, case[k] - 1}):
@@ -542,3 +602,7 @@ def shrink(case):
       for c in sorted({lo, case[k] // 2, case[k] - 1}):
         if lo <= c < case[k]:
           yield {**case, k: c}
+
+
+if __name__ == '__main__':
+  _sub_main()
